@@ -8,6 +8,8 @@ mod util;
 
 #[cfg(not(feature = "stateless"))]
 mod e1;
+#[cfg(feature = "pm")]
+mod e1_store;
 
 use serde_json::{json, Value};
 use std::cell::RefCell;
@@ -184,6 +186,8 @@ fn batch(args: &Args) -> i32 {
                     match engine.as_str() {
                         #[cfg(not(feature = "stateless"))]
                         "e1" => run_e1(args, prop, run_seed, known, &dir, &mut local, want_logs),
+                        #[cfg(feature = "pm")]
+                        "e1store" => run_e1store(args, run_seed, known, &dir, &mut local, want_logs),
                         _ => {
                             local.harness_errors.push(format!("unknown engine {engine}"));
                             break;
@@ -303,6 +307,68 @@ fn run_e1(args: &Args, prop: &str, run_seed: u64, known: &HashSet<String>, dir: 
     }
 }
 
+#[cfg(feature = "pm")]
+fn run_e1store(args: &Args, run_seed: u64, known: &HashSet<String>, dir: &std::path::Path, local: &mut Agg, want_logs: bool) {
+    let thorough = args.get("tier") == Some("thorough");
+    let trace = e1_store::generate_c16(run_seed, thorough, known);
+    let d = trace.digest();
+    local.traces.insert(d);
+    if local.samples.len() < 2 && trace.steps.len() <= 8 {
+        local.samples.push(e1_store::replay_json(&trace, Some((3, false))));
+    }
+    if args.flag("l2") {
+        // one real sled write failure per run (process-global failpoint: single-threaded batch)
+        let mut rng = prng::Prng::new(run_seed ^ 0x5151);
+        let after = rng.usize_below(trace.steps.len().max(1));
+        let bits = *rng.pick(&[1u64, 1, 2, 4, 0b101, 0xff, u64::MAX]);
+        let r = e1_store::run_l2(&trace, bits, after, dir);
+        local.runs += 1;
+        local.steps += trace.steps.len() as u64;
+        local.counters.merge(&r.counters);
+        if r.poisoned {
+            local.nontrivial.insert(d ^ bits ^ (after as u64) << 32);
+        }
+        if let Some(e) = r.harness_error {
+            local.harness_errors.push(format!("seed {run_seed}: {e}"));
+        }
+        if let Some(v) = r.violation {
+            local.violations.push(json!({
+                "violation": v.to_json(),
+                "trace": e1_store::l2_replay_json(&trace, bits, after),
+                "original_steps": trace.steps.len(),
+                "shrink_runs": 0,
+                "seed": run_seed.to_string(),
+            }));
+        }
+        return;
+    }
+    let mut states = HashSet::new();
+    let r = e1_store::run_history(&trace, known, dir, &mut local.counters, &mut states, args.u64("max-k", 400));
+    local.states.extend(states);
+    local.runs += 1 + r.fault_runs;
+    local.steps += trace.steps.len() as u64 * (1 + r.fault_runs);
+    local.nontrivial.extend(r.nontrivial.iter().copied());
+    let _ = want_logs;
+    if let Some(e) = r.harness_error {
+        local.harness_errors.push(format!("seed {run_seed}: {e}"));
+    }
+    if let Some((v, replay)) = r.violation {
+        let class = v.class();
+        let fault = replay["storage_fault"]["k"].as_u64().map(|k| (k, replay["storage_fault"]["sticky"].as_bool().unwrap_or(false)));
+        let (min, mf, used) = e1_store::shrink_c16(&trace, fault, &class, known, dir, args.u64("shrink-budget", 400) as usize);
+        let rj = e1_store::replay_json(&min, mf);
+        let (v2, _, _, _) = e1_store::run_replay(&rj, known, dir);
+        local.violations.push(json!({
+            "violation": v2.unwrap_or(v.clone()).to_json(),
+            "original_violation": v.to_json(),
+            "trace": rj,
+            "original_steps": trace.steps.len(),
+            "shrink_runs": used,
+            "seed": run_seed.to_string(),
+        }));
+    }
+}
+
 fn run_one(args: &Args) -> i32 {
     let path = match args.get("trace") {
         Some(p) => p,
@@ -331,6 +397,16 @@ fn run_one(args: &Args) -> i32 {
                 "harness_error": out.harness_error,
                 "log": ctx.log.0.to_string(),
                 "counters": ctx.counters.to_json(),
+            })
+        }
+        #[cfg(feature = "pm")]
+        "e1store" => {
+            let (v, h, log, counters) = e1_store::run_replay(&tv, &known, &base);
+            json!({
+                "violation": v.map(|v| v.to_json()),
+                "harness_error": h,
+                "log": log.to_string(),
+                "counters": counters.to_json(),
             })
         }
         _ => json!({"harness_error": format!("unknown engine {engine}")}),
